@@ -1114,7 +1114,13 @@ pub fn run(prop: &'static str, tier: &str, shard: Option<&str>) -> Report {
                 let cap = size / std::mem::size_of::<$t>();
                 let mut offs: Vec<usize> = vec![0, 1, 2, cap / 2 - 1, cap / 2, cap - 3, cap - 2, cap - 1];
                 if thorough {
-                    offs = (0..cap).filter(|o| o % nat_slice.1 == nat_slice.0).collect();
+                    // Every offset; with tags (several times the cost per
+                    // history) at most 512 evenly spaced ones plus the edges.
+                    let stride = if tagged { (cap / 512).max(1) } else { 1 };
+                    offs = (0..cap)
+                        .filter(|o| o % stride == 0 || *o + 3 >= cap || *o < 3)
+                        .filter(|o| (o / stride) % nat_slice.1 == nat_slice.0)
+                        .collect();
                 }
                 let depth = if thorough { 2 } else { 3 };
                 let cfg = mk(size, &small);
